@@ -13,7 +13,7 @@ Spec == Init /\ [][Next]_l
 
 T == INSTANCE Totality WITH MaxOps <- 0, Ops2 <- {}, InjectBytes <- {}, Depths <- {}, AllowInPlace <- FALSE,
        seed <- 1, doc <- <<>>, nest <- <<0, 0>>, ops <- 0, lastop <- "seed",
-       phase <- "Idle", call <- [api |-> "none", prec |-> 0], buf <- <<>>, orig <- <<>>, ret <- <<>>, outcome <- "none"
+       phase <- "Idle", call <- [api |-> "none", prec |-> "0"], buf <- <<>>, orig <- <<>>, ret <- <<>>, outcome <- "none"
 
 LineOK(e) ==
   /\ (T!NoPanic(e) \/ Reject(l, "NoPanic"))
